@@ -1,28 +1,31 @@
 # orchestrator configuration of the C12 check (loaded by tools/props.py)
-from stack import FULL_STACK, FULL_DEPS
+from stack import FULL_STACK, FULL_DEPS, QUIC_STACK, QUIC_DEPS
 
 SPEC = dict(
     pkg="./harness/c12",
-    instrument=FULL_STACK + ["./p2p/protocol/circuitv2/relay", "./p2p/protocol/circuitv2/client", "./p2p/protocol/circuitv2/util",
+    instrument=FULL_STACK + QUIC_STACK + ["./p2p/protocol/circuitv2/relay", "./p2p/protocol/circuitv2/client", "./p2p/protocol/circuitv2/util",
                              "./p2p/protocol/holepunch"],
-    deps=FULL_DEPS,
+    deps=FULL_DEPS + QUIC_DEPS,
     level="exploration",
     level_text=("seeded search over configurations x histories x schedules of three REAL basic hosts on a simulated TCP network: A (under "
                 "observation), B (the peer, holding a reservation on the relay) and R (real circuit-v2 relay service); every lock, channel "
                 "operation, select and goroutine start of swarm, basic host, identify, circuit client / relay, hole punching, upgrader, "
-                "yamux, multistream is a scheduling decision. Layer A (7 of 11 runs): 1-4 caller tasks on A call Swarm.NewStream / "
+                "yamux, multistream is a scheduling decision. Layer A (7 of 14 runs): 1-4 caller tasks on A call Swarm.NewStream / "
                 "Swarm.DialPeer / Host.NewStream / Host.Connect / Conn.NewStream with every subset of {allow-limited, force-direct, "
                 "no-dial}, own deadlines, dial-peer timeouts and independent cancellation instants while 1-2 environment tasks make B "
                 "reachable / unreachable, create direct connections in both directions, close direct / relayed connections on either "
                 "side, flap a direct connection, close it from inside A's Connected notification or let B come back through the relay "
                 "(inbound limited connection on A); the relay is limited, short-lived "
-                "or unlimited. Race stratum (2 of 11): 3-6 rounds in which 1-4 waiters call Swarm.NewStream without allow-limited at the "
+                "or unlimited. Race stratum (2 of 14): 3-6 rounds in which 1-4 waiters call Swarm.NewStream without allow-limited at the "
                 "instant A's gater admits a direct connection (just before the swarm registers it), with drawn extra scheduling points "
-                "in gater, dialer and waiters (check-then-register window of the waiter list). Layer B (2 of 11): A and B behind simulated stateful firewalls (filtered / open / symmetric), real hole "
+                "in gater, dialer and waiters (check-then-register window of the waiter list). Layer B (2 of 14): A and B behind simulated stateful firewalls (filtered / open / symmetric), real hole "
                 "punching services with the public tracer, optional link latency; the same callers on A wait for the hole punch. "
+                "QUIC stratum (3 of 14; strata weights A 7, B 2, race 2): layer B with A and B listening on QUIC only (real quic-go, "
+                "p2p/transport/quic incl. holePunch(), quicreuse over a simulated UDP wire), NAT = endpoint-dependent UDP filter, UDP loss / "
+                "duplication / reordering in part of the runs (stopped before the closing phase). "
                 "History oracles over stamped invocations, notifications, gater admissions, transport dials and tracer events; "
                 "Connectedness compared with the notified connection set at robust quiescent instants. Sampling, not proof."),
-    level_note=("trusted: testing/synctest, the overlay rewrite, simnet's TCP model (no SYN retransmission: a dial towards a firewalled "
+    level_note=("trusted: testing/synctest, the overlay rewrite, simrand (pinned crypto/rand in the QUIC stratum), simnet's UDP model, simnet's TCP model (no SYN retransmission: a dial towards a firewalled "
                 "host hangs until its context ends; no true simultaneous open: the later of two crossing dials gets through); weaker "
                 "readings: 'direct' for the stream / waiter clauses means not Limited (Stat().Limited; a connection through an UNLIMITED "
                 "relay is relayed but not limited and may carry any stream), 'direct' for force-direct and hole punching means a "
@@ -46,13 +49,13 @@ SPEC = dict(
           "decision hash, connection list, per-call outcome, Connectedness readings, event sequence, hole-punch event sequence)"),
     probes=["waiter-released-by-direct-conn", "waiter-cancelled-or-timed-out", "direct-conn-vanished-before-waiter-woke",
             "stream-on-limited-conn-allowed", "force-direct-succeeded", "quiescent-limited-only", "quiescent-both",
-            "inbound-limited-conn-on-A", "dnsaddr-expanded-to-relay-address", "hole-punch-attempted", "hole-punch-succeeded", "hole-punch-failed", "holepunch-direct-dial-succeeded",
+            "inbound-limited-conn-on-A", "dnsaddr-expanded-to-relay-address", "quic-transport-hole-punch-packets", "hole-punch-attempted", "hole-punch-succeeded", "hole-punch-failed", "holepunch-direct-dial-succeeded",
             "holepunch-direct-dial-failed", "holepunch-protocol-error", "dcutr-stream-on-direct-conn"],
     real=["ALL of the following run as tasks of the seeded scheduler (instrumented)", "swarm (conns, waiter list, dial worker, dial sync, "
           "connectedness, emitter)", "basic host (NewStream, Connect), identify", "circuitv2 relay service and client transport "
           "(Reserve, dial, stop handler, limited flag)", "holepunch service and hole puncher (dcutr exchange, direct dial, retries, tracer)",
-          "tcp transport dial path, upgrader + listener, noise / insecure, multistream-select, yamux", "pstoremem, eventbus"],
-    stubs=["wire: simnet TCP model", "stateful firewall predicate (inbound accepted only from an IP dialled within the last 2 s)",
+          "QUIC stratum: quic-go, p2p/transport/quic (dial, listener, holePunch), quicreuse", "tcp transport dial path, upgrader + listener, noise / insecure, multistream-select, yamux", "pstoremem, eventbus"],
+    stubs=["wire: simnet TCP model; simnet UDP model with drawn loss / duplication / latency (QUIC stratum)", "UDP NAT filter (datagram X->Y passes only if Y sent to X within 2 s or the flow is established)", "stateful firewall predicate (inbound accepted only from an IP dialled within the last 2 s)",
            "scripted MultiaddrDNSResolver on A (dnsaddr / dns4 names of B and the relay)", "recording wrappers that only delegate: connection gater, circuit transport Dial, host handed to the hole punching service"],
     assume=["virtual clock of testing/synctest", "no process stalls (timing oracles use 1 s slack)",
             "zero virtual time passes between a connection becoming unusable and its Disconnected notification"],
